@@ -183,7 +183,14 @@ def judge(model, frames_spec, obs, key, case, fail_by_drop, is_server):
             if obs["frames"] and obs["frames"][-1].opcode != 8:
                 raise Violation(key + "|frames-after-close", repr([f.brief() for f in obs["frames"]]), case)
     elif model.closed_by_peer:
-        pass   # close handshake itself is judged by C05
+        # the close handshake itself is judged by C05; here only: a *valid* peer close is never answered with a failure status
+        peer = [e for e in model.events if e[0] == "close"][-1]
+        for f in closes_written:
+            wcode = struct.unpack("!H", f.payload[:2])[0] if len(f.payload) >= 2 else None
+            if wcode not in (None, 1000, peer[1]):
+                raise Violation("%s|valid-peer-close-answered-with-failure-status|%s" % (key, wcode), "peer close %r answered with close code %r" % (peer[1:], wcode), case)
+        if obs["escaped"] or obs["loop_errors"]:
+            raise Violation(key + "|exception-escaped-on-peer-close", repr((obs["escaped"] or obs["loop_errors"])[0])[:300], case)
     else:
         if closes_written or obs["dropped"] or obs["closes"]:
             raise Violation(key + "|valid-stream-failed", "no violation in stream but endpoint wrote close=%r dropped=%r onClose=%r" % (
@@ -346,7 +353,8 @@ def seq_strategy():
         n = draw(st.one_of(st.integers(0, 40), st.sampled_from([125, 126, 127, 300, 65535, 65536, 70000])))
         nfrag = draw(st.integers(1, 5))
         cuts = sorted(draw(st.lists(st.integers(0, n), min_size=nfrag - 1, max_size=nfrag - 1)))
-        ctl = draw(st.lists(st.tuples(st.integers(0, nfrag), st.sampled_from([9, 10]), st.integers(0, 125)), max_size=2))
+        # control frames between the fragments: pings/pongs, occasionally the peer's (valid) close - after which the peer sends nothing more
+        ctl = draw(st.lists(st.tuples(st.integers(0, nfrag), st.sampled_from([9, 10, 9, 10, 9, 10, 8]), st.integers(0, 125)), max_size=2))
         return {"t": "msg", "bin": binary, "len": n, "salt": draw(st.integers(0, 999)), "cuts": cuts, "ctl": ctl}
 
     item = st.one_of(message(), message(), st.fixed_dictionaries({"t": st.just("ctl"), "op": st.sampled_from([9, 10]), "len": st.integers(0, 125)}))
@@ -379,6 +387,9 @@ def build_frames(c):
         out.append({"fin": fin, "rsv": rsv, "op": op, "masked": masked if m is None else m, "payload": payload, "form": form, "declared": declared,
                     "header_only": header_only})
 
+    class PeerClosed(Exception):
+        pass
+
     def emit_items(items):
         for it in items:
             if it["t"] == "ctl":
@@ -392,76 +403,82 @@ def build_frames(c):
             for k, part in enumerate(parts):
                 for (at, op, ln) in it["ctl"]:
                     if at == k and k > 0:
+                        if op == 8:
+                            add(8, struct.pack("!H", 1000 + ln % 2 * 2000) + (b"bye \xc3\xa9" if ln % 3 else b""))
+                            raise PeerClosed()
                         add(op, pattern(ln, 5))
                 add((2 if it["bin"] else 1) if k == 0 else 0, part, fin=(k == len(parts) - 1))
 
-    emit_items(c["items"][:c["vpos"]])
-    v = c["vio"]
-    if v == "rsv":
-        add(1, b"x", rsv=2)
-    elif v == "reserved-data-op":
-        add(3, b"x")
-    elif v == "reserved-ctl-op":
-        add(11, b"")
-    elif v == "fragmented-control":
-        add(9, b"p", fin=False)
-    elif v == "control>125":
-        add(9, b"p" * 126)
-    elif v == "continuation-without-start":
-        add(0, b"x")
-    elif v == "new-data-inside-message":
-        add(1, b"a", fin=False)
-        add(1, b"b")
-    elif v == "non-minimal-126":
-        add(2, b"x" * 100, form=126)
-    elif v == "non-minimal-127":
-        add(2, b"x" * 200, form=127)
-    elif v == "len>=2^63":
-        add(2, b"", form=127, declared=(1 << 63) + 5, header_only=True)
-    elif v == "wrong-mask":
-        add(1, b"x", m=not masked)
-    elif v == "close-1-byte":
-        add(8, b"\x03")
-    elif v == "close-bad-code":
-        add(8, struct.pack("!H", c["code"]) + b"bye")
-    elif v == "close-bad-utf8":
-        add(8, struct.pack("!H", 1000) + b"\xc3\x28")
-    elif v == "text-overlong":
-        add(1, b"ab\xc0\xafcd")
-    elif v == "text-surrogate":
-        add(1, b"ab\xed\xa0\x80")
-    elif v == "text->10ffff":
-        add(1, b"\xf4\x90\x80\x80")
-    elif v == "text-truncated-at-end":
-        add(1, b"ok\xe2\x82")
-    elif v == "text-bad-in-2nd-fragment":
-        add(1, b"\xe2\x82", fin=False)
-        add(0, b"\x28rest")
-    elif v == "text-generated":
-        tv = c["tv"]
-        name, bad, follow = BAD_TEXT[tv["bad"]]
-        payload = utf8_text(tv["pre"], tv["salt"]) + bad + (utf8_text(tv["suf"], tv["salt"] + 1) if follow else b"")
-        badpos = tv["pre"] + len(bad)
-        cuts = sorted(set(min(len(payload), len(payload) * f // 1000) for f in tv["cuts"] if f < 1000) | set(max(0, min(len(payload), badpos + e)) for e in tv["edge"]))
-        cuts = [x for x in cuts] + ([len(payload)] if 1000 in tv["cuts"] else [])
-        parts, pos = [], 0
-        for cpos in cuts + [len(payload)]:
-            parts.append(payload[pos:cpos])
-            pos = cpos
-        for k, part in enumerate(parts):
-            if tv["ctl"] and k == len(parts) - 1 and k > 0:
-                add(9, b"mid")
-            add(1 if k == 0 else 0, part, fin=(k == len(parts) - 1))
-    elif v == "rsv1-control":
-        add(9, b"p", rsv=4)
-    elif v == "rsv1-continuation":
-        add(1, b"a", fin=False)
-        add(0, b"b", rsv=4)
-    emit_items(c["items"][c["vpos"]:])
-    emit_items(c["tail"])
-    if c["close"] is not None:
-        code, reason = c["close"]
-        add(8, b"" if code is None else struct.pack("!H", code) + reason.encode("utf-8")[:100])
+    try:
+        emit_items(c["items"][:c["vpos"]])
+        v = c["vio"]
+        if v == "rsv":
+            add(1, b"x", rsv=2)
+        elif v == "reserved-data-op":
+            add(3, b"x")
+        elif v == "reserved-ctl-op":
+            add(11, b"")
+        elif v == "fragmented-control":
+            add(9, b"p", fin=False)
+        elif v == "control>125":
+            add(9, b"p" * 126)
+        elif v == "continuation-without-start":
+            add(0, b"x")
+        elif v == "new-data-inside-message":
+            add(1, b"a", fin=False)
+            add(1, b"b")
+        elif v == "non-minimal-126":
+            add(2, b"x" * 100, form=126)
+        elif v == "non-minimal-127":
+            add(2, b"x" * 200, form=127)
+        elif v == "len>=2^63":
+            add(2, b"", form=127, declared=(1 << 63) + 5, header_only=True)
+        elif v == "wrong-mask":
+            add(1, b"x", m=not masked)
+        elif v == "close-1-byte":
+            add(8, b"\x03")
+        elif v == "close-bad-code":
+            add(8, struct.pack("!H", c["code"]) + b"bye")
+        elif v == "close-bad-utf8":
+            add(8, struct.pack("!H", 1000) + b"\xc3\x28")
+        elif v == "text-overlong":
+            add(1, b"ab\xc0\xafcd")
+        elif v == "text-surrogate":
+            add(1, b"ab\xed\xa0\x80")
+        elif v == "text->10ffff":
+            add(1, b"\xf4\x90\x80\x80")
+        elif v == "text-truncated-at-end":
+            add(1, b"ok\xe2\x82")
+        elif v == "text-bad-in-2nd-fragment":
+            add(1, b"\xe2\x82", fin=False)
+            add(0, b"\x28rest")
+        elif v == "text-generated":
+            tv = c["tv"]
+            name, bad, follow = BAD_TEXT[tv["bad"]]
+            payload = utf8_text(tv["pre"], tv["salt"]) + bad + (utf8_text(tv["suf"], tv["salt"] + 1) if follow else b"")
+            badpos = tv["pre"] + len(bad)
+            cuts = sorted(set(min(len(payload), len(payload) * f // 1000) for f in tv["cuts"] if f < 1000) | set(max(0, min(len(payload), badpos + e)) for e in tv["edge"]))
+            cuts = [x for x in cuts] + ([len(payload)] if 1000 in tv["cuts"] else [])
+            parts, pos = [], 0
+            for cpos in cuts + [len(payload)]:
+                parts.append(payload[pos:cpos])
+                pos = cpos
+            for k, part in enumerate(parts):
+                if tv["ctl"] and k == len(parts) - 1 and k > 0:
+                    add(9, b"mid")
+                add(1 if k == 0 else 0, part, fin=(k == len(parts) - 1))
+        elif v == "rsv1-control":
+            add(9, b"p", rsv=4)
+        elif v == "rsv1-continuation":
+            add(1, b"a", fin=False)
+            add(0, b"b", rsv=4)
+        emit_items(c["items"][c["vpos"]:])
+        emit_items(c["tail"])
+        if c["close"] is not None:
+            code, reason = c["close"]
+            add(8, b"" if code is None else struct.pack("!H", code) + reason.encode("utf-8")[:100])
+    except PeerClosed:
+        pass
     return out
 
 
